@@ -159,7 +159,10 @@ FlagUpdate(s, e) ==
       [] e.f = "started" /\ ~e.on /\ ~LegitReset(e) -> s           \* reported by the state-reset clause; the monitor keeps what it knows
       [] e.f = "completed" /\ ~e.on /\ ~LegitReset(e) -> s
       [] e.f = "block_ended" /\ ~e.on /\ ~LegitReset(e) -> s
+      \* a reset ends the invocation: a force or a cancel belonged to it and does not carry over to the next one, whatever the
+      \* node's flags say
       [] e.f = "started" /\ ~e.on -> [s EXCEPT !.S = @ \ {n}, !.began = @ \ {n}, !.inited = @ \ {n}, !.calls = Without(@, n),
+                                                !.F = @ \ {n}, !.X = @ \ {n},
                                                 !.stale = IF e.phase = "run" /\ n \in Ids(s.R) THEN @ \cup {n} ELSE @]
       [] e.f = "completed" /\ e.on -> [s EXCEPT !.D = @ \cup {n}, !.calls = Without(@, n),
                                                 !.Dt = IF e.tracked /\ ({n} \cup SetOfSeq(e.conds)) \cap s.stale = {} THEN @ \cup {n} ELSE @,
